@@ -251,6 +251,13 @@ Ltac zl := repeat (progress (rewrite ?zlen_app, ?zlen_cons, ?zlen_nil in * )).
 
 (* ------------------------------------------------------------------------------------------ *)
 (* sasl_scram on a server-first-message of the RFC's form                                      *)
+Lemma digits_cfree : forall s, all_digits s = true -> cfree s.
+Proof.
+  intros s Hd K. unfold all_digits in Hd. rewrite forallb_forall in Hd. specialize (Hd 44 K).
+  apply andb_prop in Hd. destruct Hd as [Hd _]. apply Z.leb_le in Hd. lia.
+Qed.
+
+
 Section Exchange.
   Context {C : Type} (alg : hash_alg C).
   Variable H : list Z -> list Z.
@@ -275,12 +282,6 @@ Section Exchange.
   Definition the_proof (password salt : list Z) (v : Z) (auth : list Z) : list Z :=
     let ck := HM (Hi HM password salt v) client_key_label in
     XOR ck (HM (H ck) auth).
-
-  Lemma digits_cfree : forall s, all_digits s = true -> cfree s.
-  Proof.
-    intros s Hd K. unfold all_digits in Hd. rewrite forallb_forall in Hd. specialize (Hd 44 K).
-    apply andb_prop in Hd. destruct Hd as [Hd _]. apply Z.leb_le in Hd. lia.
-  Qed.
 
   Lemma scram_tokens : forall nonce salt idigits,
     cfree nonce -> bytes salt -> all_digits idigits = true ->
@@ -518,3 +519,238 @@ Proof.
   intros K. apply nonce_chars in K. change nonce_hex_tbl with [48; 49; 50; 51; 52; 53; 54; 55; 56; 57; 65; 66; 67; 68; 69; 70] in K.
   cbn [In] in K. repeat (destruct K as [K|K]; [discriminate|]). exact K.
 Qed.
+
+(* ------------------------------------------------------------------------------------------ *)
+(* the RFC 5802 server accepts                                                                 *)
+Section Verify.
+  Context {C : Type} (alg : hash_alg C).
+  Variable H : list Z -> list Z.
+  Variable HM : list Z -> list Z -> list Z.
+  Variable lim : Z.
+  Hypothesis hash_ok : forall d, zlen d <= lim -> ha_hash alg d = HOk (H d).
+  Hypothesis hmac_ok : forall k t, zlen k + zlen t <= lim -> crypto_HMAC alg k t = HOk (HM k t).
+  Hypothesis H_len : forall d, zlen (H d) = ha_digest_size alg.
+  Hypothesis HM_len : forall k t, zlen (HM k t) = ha_digest_size alg.
+  Hypothesis HM_bytes : forall k t, bytes (HM k t).
+  Hypothesis ds_range : 0 < ha_digest_size alg <= 64.
+  Hypothesis lim_big : 256 <= lim.
+  Notation dsz := (ha_digest_size alg).
+
+  Definition flag_of (plus secured : bool) (cbname : list Z) : list Z :=
+    if plus then [112; 61] ++ cbname else [if secured then 121 else 110].
+  Lemma gs2_flag plus secured cbname : gs2_header plus secured cbname = flag_of plus secured cbname ++ [44; 44].
+  Proof. unfold gs2_header, flag_of. destruct plus; [now rewrite <- app_assoc|reflexivity]. Qed.
+  Lemma flag_cfree plus secured cbname : cfree cbname -> cfree (flag_of plus secured cbname).
+  Proof.
+    intros Hc. unfold flag_of. destruct plus.
+    - apply cfree_cons; [lia|apply cfree_cons; [lia|exact Hc]].
+    - apply cfree_cons; [destruct secured; lia|apply cfree_nil].
+  Qed.
+
+  Lemma verify_ok : forall plus secured cbname cbd node cnonce snonce salt idigits password,
+    cfree cbname -> bytes cbname -> bytes cbd ->
+    cfree cnonce -> cfree snonce -> snonce <> [] ->
+    bytes salt -> salt <> [] ->
+    all_digits idigits = true -> idigits <> [] ->
+    let v := dec_value idigits in
+    let acc := {| acc_user := node; acc_password := password; acc_salt := salt; acc_iter := v |} in
+    let ch := {| ch_plus := plus; ch_tls := secured; ch_cbname := cbname; ch_cbdata := cbd |} in
+    let gs2 := gs2_header plus secured cbname in
+    let cf := client_first_of plus secured cbname node cnonce in
+    let nonce := cnonce ++ snonce in
+    let sf := server_first nonce salt idigits in
+    let cb := encode (gs2 ++ (if plus then cbd else [])) in
+    let auth := first_bare_of node cnonce ++ [44] ++ sf ++ [44] ++ cfwp cb nonce in
+    let final := cfwp cb nonce ++ [44; 112; 61] ++ encode (the_proof H HM password salt v auth) in
+    server_verify H HM dsz acc ch cf sf final = true.
+  Proof.
+    intros plus secured cbname cbd node cnonce snonce salt idigits pw Hcb Hcbb Hcbd Hcn Hsn Hsne Hsb Hsalt Hd Hdne
+           v acc ch gs2 cf nonce sf cb auth final.
+    assert (Hnonce : cfree nonce) by (apply cfree_app; assumption).
+    assert (Hna : cfree (n_attr node)) by (unfold n_attr; apply cfree_cons; [lia|apply cfree_cons; [lia|apply escape_cfree]]).
+    assert (Hra : cfree (r_attr cnonce)) by (unfold r_attr; apply cfree_cons; [lia|apply cfree_cons; [lia|exact Hcn]]).
+    assert (Hra2 : cfree (r_attr nonce)) by (unfold r_attr; apply cfree_cons; [lia|apply cfree_cons; [lia|exact Hnonce]]).
+    assert (Hsa : cfree (s_attr salt)) by (unfold s_attr; apply cfree_cons; [lia|apply cfree_cons; [lia|now apply encode_cfree]]).
+    assert (Hia : cfree (i_attr idigits)) by (unfold i_attr; apply cfree_cons; [lia|apply cfree_cons; [lia|now apply (digits_cfree)]]).
+    (* client-first *)
+    assert (Scf : split_commas cf = [flag_of plus secured cbname; []; n_attr node; r_attr cnonce]).
+    { unfold cf, client_first_of. rewrite gs2_flag, <- app_assoc. cbn [app].
+      rewrite split_commas_app by (now apply flag_cfree).
+      change (split_commas (44 :: first_bare_of node cnonce)) with ([] :: split_commas (first_bare_of node cnonce)).
+      unfold first_bare_of. rewrite split_commas_app by exact Hna. rewrite split_commas_cfree by exact Hra. reflexivity. }
+    (* server-first *)
+    assert (Ssf : split_commas sf = [r_attr nonce; s_attr salt; i_attr idigits]).
+    { unfold sf, server_first. rewrite split_commas_app by exact Hra2. rewrite split_commas_app by exact Hsa.
+      rewrite split_commas_cfree by exact Hia. reflexivity. }
+    (* client-final *)
+    set (prf := the_proof H HM pw salt v auth) in *.
+    assert (Hcbc : cfree cb).
+    { unfold cb. apply encode_cfree. unfold gs2, gs2_header. destruct plus, secured; repeat (apply Forall_app; split);
+        try assumption; repeat constructor; unfold is_byte; lia. }
+    assert (Hpb : bytes prf) by (unfold prf, the_proof; apply XOR_bytes; apply HM_bytes).
+    assert (Lprf : zlen prf = dsz).
+    { unfold prf, the_proof, zlen. rewrite XOR_length.
+      - apply HM_len.
+      - pose proof (HM_len (Hi HM pw salt v) client_key_label) as Ea.
+        pose proof (HM_len (H (HM (Hi HM pw salt v) client_key_label)) auth) as Eb. unfold zlen in Ea, Eb. lia. }
+    assert (Hprf_ne : prf <> []) by (intros K; rewrite K in Lprf; change (zlen (@nil Z)) with 0 in Lprf; lia).
+    assert (Sfin : split_commas final = [99 :: 61 :: cb; r_attr nonce; 112 :: 61 :: encode prf]).
+    { unfold final, cfwp. cbn [app]. rewrite <- app_assoc. cbn [app].
+      change (99 :: 61 :: cb ++ 44 :: r_attr nonce ++ 44 :: 112 :: 61 :: encode prf)
+        with ((99 :: 61 :: cb) ++ 44 :: r_attr nonce ++ 44 :: 112 :: 61 :: encode prf).
+      rewrite split_commas_app by (apply cfree_cons; [lia|apply cfree_cons; [lia|exact Hcbc]]).
+      rewrite split_commas_app by exact Hra2.
+      rewrite split_commas_cfree by (apply cfree_cons; [lia|apply cfree_cons; [lia|now apply encode_cfree]]).
+      reflexivity. }
+    unfold server_verify. rewrite Scf.
+    assert (F1 : gs2_flag_ok ch (flag_of plus secured cbname) = true).
+    { unfold gs2_flag_ok, ch, flag_of. cbn [ch_plus ch_tls ch_cbname]. destruct plus; [apply beq_refl|]. destruct secured; reflexivity. }
+    rewrite F1. change (beq [] []) with true.
+    change (has_prefix [110; 61] (n_attr node)) with true. change (has_prefix [114; 61] (r_attr cnonce)) with true.
+    cbn [andb negb]. change (skipn 2 (n_attr node)) with (scram_escape node). rewrite escape_decode.
+    change (acc_user acc) with node. rewrite beq_refl.
+    assert (F2 : server_first_ok acc cnonce sf = true).
+    { unfold server_first_ok. rewrite Ssf.
+      change ([114; 61] ++ cnonce) with (r_attr cnonce).
+      assert (P1 : has_prefix (r_attr cnonce) (r_attr nonce) = true).
+      { unfold r_attr, nonce. change (114 :: 61 :: cnonce ++ snonce) with ((114 :: 61 :: cnonce) ++ snonce). apply has_prefix_app. }
+      rewrite P1.
+      assert (P2 : beq (r_attr nonce) (r_attr cnonce) = false).
+      { rewrite beq_list_eqb. apply list_eqb_neq. unfold r_attr, nonce. intros K. injection K as K.
+        rewrite <- (app_nil_r cnonce) in K at 2. apply app_inv_head in K. contradiction. }
+      rewrite P2. change (has_prefix [115; 61] (s_attr salt)) with true. change (skipn 2 (s_attr salt)) with (encode salt).
+      destruct (spec_decode_encode salt Hsb Hsalt) as [V D]. rewrite V, D. change (acc_salt acc) with salt. rewrite beq_refl.
+      change (has_prefix [105; 61] (i_attr idigits)) with true. change (skipn 2 (i_attr idigits)) with idigits.
+      rewrite Hd. rewrite beq_list_eqb, (list_eqb_neq idigits []) by exact Hdne.
+      change (acc_iter acc) with v. unfold v. rewrite Z.eqb_refl. reflexivity. }
+    change (skipn 2 (r_attr cnonce)) with cnonce. rewrite F2. cbn [andb negb].
+    rewrite Ssf, Sfin.
+    change (has_prefix [99; 61] (99 :: 61 :: cb)) with true. change (has_prefix [112; 61] (112 :: 61 :: encode prf)) with true.
+    rewrite beq_refl. change (skipn 2 (99 :: 61 :: cb)) with cb. change (skipn 2 (112 :: 61 :: encode prf)) with (encode prf).
+    assert (Hg : bytes (gs2 ++ (if plus then cbd else []))).
+    { unfold gs2, gs2_header. destruct plus, secured; repeat (apply Forall_app; split); try assumption; repeat constructor; unfold is_byte; lia. }
+    assert (Hgne : gs2 ++ (if plus then cbd else []) <> []).
+    { unfold gs2, gs2_header. destruct plus; discriminate. }
+    destruct (spec_decode_encode _ Hg Hgne) as [V1 D1]. fold cb in V1, D1. rewrite V1, D1.
+    change (ch_plus ch) with plus. change (ch_cbdata ch) with cbd.
+    change (flag_of plus secured cbname ++ [44] ++ [] ++ [44]) with (flag_of plus secured cbname ++ [44; 44]).
+    rewrite <- gs2_flag. fold gs2. rewrite beq_refl.
+    destruct (spec_decode_encode prf Hpb Hprf_ne) as [V2 D2]. rewrite V2, D2, Lprf, Z.eqb_refl.
+    cbn [andb negb].
+    (* the AuthMessage the server computes is the one the proof was made with *)
+    assert (EA : n_attr node ++ [44] ++ r_attr cnonce = first_bare_of node cnonce) by reflexivity.
+    assert (EB : (99 :: 61 :: cb) ++ [44] ++ r_attr nonce = cfwp cb nonce) by reflexivity.
+    replace ((n_attr node ++ [44] ++ r_attr cnonce) ++ [44] ++ sf ++ [44] ++ (99 :: 61 :: cb) ++ [44] ++ r_attr nonce) with auth
+      by (unfold auth; rewrite EA, EB; reflexivity).
+    unfold StoredKey, ClientKey, SaltedPassword. change (acc_password acc) with pw. change (acc_salt acc) with salt. change (acc_iter acc) with v.
+    change client_key_label with Rfc5802Spec.client_key_label.
+    set (ck := HM (Hi HM pw salt v) Rfc5802Spec.client_key_label).
+    unfold prf, the_proof. fold ck. rewrite XOR_cancel; [apply beq_refl|].
+    pose proof (HM_len (Hi HM pw salt v) Rfc5802Spec.client_key_label) as Ea. pose proof (HM_len (H ck) auth) as Eb.
+    unfold zlen in Ea, Eb. fold ck in Ea. lia.
+  Qed.
+End Verify.
+
+(* ------------------------------------------------------------------------------------------ *)
+(* end to end: _make_scram_init_msg, the server's answer, sasl_scram, the server's verdict     *)
+Definition opt_list (o : option (list Z)) : list Z := match o with Some l => l | None => [] end.
+
+(* what the exchange needs to be able to start (otherwise the client refuses cleanly) *)
+Definition plus_ready (plus secured : bool) (cbtype cbdata : option (list Z)) : Prop :=
+  plus = true ->
+  secured = true /\ cbtype <> None /\ cbdata <> None /\
+  zlen (opt_list cbtype) + 4 <= 56 /\ zlen (opt_list cbdata) <= 56 - (zlen (opt_list cbtype) + 4).
+
+Definition scram_outcome {C} (alg : hash_alg C) (H : list Z -> list Z) (HM : list Z -> list Z -> list Z)
+           (plus secured : bool) (cbtype cbdata : option (list Z)) (jid rng node password salt idigits snonce : list Z) : Prop :=
+  exists si, fst (make_scram_init_msg plus secured cbtype cbdata jid rng) = AOk si /\
+    let cnonce := client_nonce rng in
+    let sf := server_first (cnonce ++ snonce) salt idigits in
+    let acc := {| acc_user := node; acc_password := password; acc_salt := salt; acc_iter := dec_value idigits |} in
+    let ch := {| ch_plus := plus; ch_tls := secured; ch_cbname := opt_list cbtype; ch_cbdata := opt_list cbdata |} in
+    match sasl_scram alg (si_channel_binding si) sf (scram_first_bare si) password with
+    | AOk resp => exists final, resp = encode final /\
+                    server_verify H HM (ha_digest_size alg) acc ch (si_message si) sf final = true
+    | ANull => 2 ^ 32 <= dec_value idigits
+    | _ => False
+    end.
+
+Section Main.
+  Context {C : Type} (alg : hash_alg C).
+  Variable H : list Z -> list Z.
+  Variable HM : list Z -> list Z -> list Z.
+  Variable lim : Z.
+  Hypothesis hash_ok : forall d, zlen d <= lim -> ha_hash alg d = HOk (H d).
+  Hypothesis hmac_ok : forall k t, zlen k + zlen t <= lim -> crypto_HMAC alg k t = HOk (HM k t).
+  Hypothesis H_len : forall d, zlen (H d) = ha_digest_size alg.
+  Hypothesis HM_len : forall k t, zlen (HM k t) = ha_digest_size alg.
+  Hypothesis HM_bytes : forall k t, bytes (HM k t).
+  Hypothesis ds_range : 0 < ha_digest_size alg <= 64.
+  Hypothesis lim_big : 4096 <= lim.
+
+  Lemma scram_generic : forall plus secured cbtype cbdata jid rng node password salt idigits snonce,
+    spec_node jid = Some node ->
+    plus_ready plus secured cbtype cbdata ->
+    cfree (opt_list cbtype) -> bytes (opt_list cbtype) -> bytes (opt_list cbdata) ->
+    bytes salt -> salt <> [] -> zlen salt <= 124 ->
+    all_digits idigits = true -> idigits <> [] -> 1 <= dec_value idigits ->
+    cfree snonce -> snonce <> [] ->
+    zlen password + 3 * zlen jid + 2 * zlen snonce + zlen idigits + 2048 <= lim ->
+    scram_outcome alg H HM plus secured cbtype cbdata jid rng node password salt idigits snonce.
+  Proof.
+    intros plus secured cbtype cbdata jid rng node pw salt idigits snonce Hnode Hready Hcbf Hcbb Hcdb Hsb Hsne Hsl Hd Hdne Hv Hsn Hsnne Hsize.
+    assert (lim_big' : 256 <= lim) by lia.
+    set (cn := client_nonce rng).
+    assert (Hcn : cfree cn) by apply nonce_cfree.
+    assert (Lcn : zlen cn <= 32).
+    { unfold cn, client_nonce, rand_nonce, zlen. rewrite firstn_length. change (Z.to_nat (scram_nonce_len - 1)) with 32%nat. lia. }
+    (* the escaped node is at most three times as long as the JID *)
+    assert (Lnode : zlen (scram_escape node) <= 3 * zlen jid).
+    { assert (L1 : zlen (scram_escape node) <= 3 * zlen node).
+      { clear. induction node as [|c n IH]; [cbn; lia|]. unfold scram_escape. cbn [flat_map]. fold (scram_escape n).
+        rewrite zlen_app, zlen_cons, esc_char_cases. destruct (c =? 44); [change (zlen [61; 50; 67]) with 3; lia|]. destruct (c =? 61); [change (zlen [61; 51; 68]) with 3; lia|change (zlen [c]) with 1; lia]. }
+      assert (L2 : zlen node <= zlen jid).
+      { clear -Hnode. unfold spec_node in Hnode. destruct (after AT (spec_bare jid)); [|discriminate]. injection Hnode as <-.
+        assert (B : forall c s, zlen (before c s) <= zlen s).
+        { intros c s. induction s as [|x s IH]; cbn [before]; [lia|]. destruct (x =? c); rewrite ?zlen_cons; [pose proof (zlen_nonneg s); cbn; lia|lia]. }
+        eapply Z.le_trans; [apply B|]. unfold spec_bare. apply B. }
+      lia. }
+    pose proof (zlen_nonneg pw). pose proof (zlen_nonneg jid). pose proof (zlen_nonneg snonce). pose proof (zlen_nonneg idigits).
+    pose proof (zlen_nonneg (scram_escape node)). pose proof (zlen_nonneg cn).
+    assert (Lfb : zlen (first_bare_of node cn) = zlen (scram_escape node) + zlen cn + 5).
+    { unfold first_bare_of, n_attr, r_attr. zl. lia. }
+    destruct plus.
+    - (* -PLUS *)
+      destruct (Hready eq_refl) as (Hsec & Ht & Hdt & Htl & Hdl). subst secured.
+      destruct cbtype as [t|]; [|contradiction]. destruct cbdata as [d|]; [|contradiction]. cbn [opt_list] in *.
+      eexists. split; [apply init_plus; assumption|].
+      cbv zeta. unfold scram_first_bare. cbn [si_message si_first_bare si_channel_binding].
+      fold cn.
+      assert (Efb : skipn (Z.to_nat (zlen t + 4)) (client_first_of true true t node cn) = first_bare_of node cn).
+      { unfold client_first_of, gs2_header. replace (Z.to_nat (zlen t + 4)) with (length ([112; 61] ++ t ++ [44; 44]))
+          by (rewrite <- to_nat_zlen; f_equal; zl; lia). apply skipn_exact. }
+      rewrite Efb.
+      pose proof (zlen_nonneg t). pose proof (zlen_nonneg d).
+      assert (Lcb : zlen (encode (gs2_header true true t ++ d)) <= 80).
+      { rewrite encode_length. unfold gs2_header. zl.
+        assert ((2 + zlen t + 2 + zlen d + 2) / 3 <= 20) by (apply Z.div_le_upper_bound; lia). lia. }
+      rewrite (sasl_scram_wf alg H HM lim hash_ok hmac_ok H_len HM_len ds_range lim_big')
+        by (try assumption; try (apply cfree_app; assumption); zl; lia).
+      destruct (2 ^ 32 <=? dec_value idigits) eqn:Eb; [apply Z.leb_le in Eb; exact Eb|].
+      eexists. split; [reflexivity|].
+      apply (verify_ok alg H HM H_len HM_len HM_bytes ds_range true true t d node cn snonce salt idigits pw); assumption.
+    - (* without channel binding *)
+      eexists. split; [apply init_noplus; exact Hnode|].
+      cbv zeta. unfold scram_first_bare. cbn [si_message si_first_bare si_channel_binding]. fold cn.
+      assert (Efb : skipn (Z.to_nat 3) (client_first_of false secured [] node cn) = first_bare_of node cn) by reflexivity.
+      rewrite Efb.
+      assert (Lcb : zlen (encode (gs2_header false secured [])) = 4) by reflexivity.
+      rewrite (sasl_scram_wf alg H HM lim hash_ok hmac_ok H_len HM_len ds_range lim_big')
+        by (try assumption; try (apply cfree_app; assumption); zl; lia).
+      destruct (2 ^ 32 <=? dec_value idigits) eqn:Eb; [apply Z.leb_le in Eb; exact Eb|].
+      eexists. split; [reflexivity|].
+      pose proof (verify_ok alg H HM H_len HM_len HM_bytes ds_range false secured (opt_list cbtype) (opt_list cbdata) node cn snonce salt idigits pw
+                    Hcbf Hcbb Hcdb Hcn Hsn Hsnne Hsb Hsne Hd Hdne) as V.
+      cbv zeta in V. rewrite app_nil_r in V. exact V.
+  Qed.
+End Main.
